@@ -439,6 +439,7 @@ class ConfigurationRepository:
         any kwargs specified.
 
         """
+        path = os.path.abspath(path)
         return ConfigurationRepository(
             _load_config(os.path.dirname(path), os.path.basename(path), **kwargs)
         )
@@ -678,7 +679,8 @@ class Environment:
 
     @classmethod
     def from_file(cls, memento_env_path: str) -> "Environment":
-        base_dir = os.path.basename(memento_env_path)
+        memento_env_path = os.path.abspath(memento_env_path)
+        base_dir = os.path.dirname(memento_env_path)
         return Environment(_load_config(base_dir, memento_env_path))
 
 
